@@ -103,8 +103,18 @@ class Var(Aggregation):
         if isinstance(n, Number) and n == 0:
             return float('nan')
         result = (x2 / n) - (x / n) ** 2
+        # rounding can leave a tiny negative number where the variance is 0
+        # (a constant column); its square root, the standard deviation, would
+        # be NaN
+        result = np.maximum(result, 0)
         if self.ddof != 0:
             result = result * n / (n - self.ddof)
+            # not defined for fewer than ddof + 1 observations (a residue of
+            # rounding in the numerator would otherwise come out as inf)
+            if hasattr(result, 'where'):
+                result = result.where(n > self.ddof)
+            elif not n > self.ddof:
+                result = float('nan')
         return result
 
     def on_new(self, acc, new):
@@ -569,8 +579,18 @@ class GroupbyVar(GroupbyAggregation):
         if isinstance(n, Number) and n == 0:
             return float('nan')
         result = (x2 / n) - (x / n) ** 2
+        # rounding can leave a tiny negative number where the variance is 0
+        # (a constant column); its square root, the standard deviation, would
+        # be NaN
+        result = np.maximum(result, 0)
         if self.ddof != 0:
             result = result * n / (n - self.ddof)
+            # not defined for fewer than ddof + 1 observations (a residue of
+            # rounding in the numerator would otherwise come out as inf)
+            if hasattr(result, 'where'):
+                result = result.where(n > self.ddof)
+            elif not n > self.ddof:
+                result = float('nan')
         return result
 
     def on_new(self, acc, new, grouper=None):
